@@ -224,7 +224,7 @@ func (proc *Processor) ExecuteStatement(ctx context.Context, stmt parser.Stateme
 						} else {
 							err = e
 						}
-					} else if !proc.Tx.Flags.ExportOptions.StripEndingLineBreak &&
+					} else if !proc.Tx.Flags.ExportOptions.StripEndingLineBreak && exportOptions.Format != option.JSONL &&
 						!(proc.Tx.Session.OutFile() != nil && exportOptions.Format == option.FIXED && exportOptions.SingleLine) {
 						_, err = writer.Write([]byte(proc.Tx.Flags.ExportOptions.LineBreak.Value()))
 					}
